@@ -31,7 +31,7 @@ func varyNames(h http.Header) map[string]bool {
 func famPair(o *Out, r R, tier string) {
 	ncfg, nreq := 250, 20
 	if tier == "thorough" {
-		ncfg, nreq = 4000, 50
+		ncfg, nreq = 2500, 50
 	}
 	keys := []string{"Origin", "Access-Control-Request-Method", "Access-Control-Request-Headers", "Access-Control-Request-Private-Network", "X-Unrelated", "origin", "Cookie"}
 	for i := 0; i < ncfg; i++ {
@@ -101,7 +101,7 @@ func fetchNormalize(m string) string {
 func famIntent(o *Out, r R, tier string) {
 	ncfg, nint := 300, 24
 	if tier == "thorough" {
-		ncfg, nint = 5000, 60
+		ncfg, nint = 3000, 60
 	}
 	for i := 0; i < ncfg; i++ {
 		c := genValidConfig(r)
@@ -344,7 +344,7 @@ func famHistWant(want string) family {
 					rec(append(append([]opT{}, prefix...), op))
 				}
 			}
-			if s < 3 {
+			if s < 3 && (tier != "thorough" || s < 2) {
 				rec(nil)
 			}
 			for k := 0; k < 25; k++ {
